@@ -5,6 +5,7 @@ most `i` entries — for every matrix and every ordering array (permutation or n
 `factorize()` / `operator()` is negative.
 -/
 namespace Amgcl
+open Arr2
 
 theorem foldl_inv {α β : Type} (Q : β → Prop) (f : β → α → β) (l : List α) (b : β) (hb : Q b)
     (h : ∀ b a, Q b → Q (f b a)) : Q (l.foldl f b) := by
